@@ -770,6 +770,26 @@ class loader( reader ):
                     if self.state in (self.INITIAL, self.SWITCHING, self.AWAITING):
                         self.state	= self.STREAMING
 
+                    # Our position in the history advances with every record read in order, whatever
+                    # its payload turns out to be (register data, a note, corrupt JSON): the next file
+                    # is selected relative to it.  A file w/o a single acceptable record would
+                    # otherwise be selected again, forever.
+                    inorder		= self._ts is None or ts >= self._ts
+                    if inorder:
+                        if self._strict:
+                            # Carefully release self._strict.  If we opened a file, we'll set
+                            # _strict.  The last file's final timestamp will be in self._ts; say it's
+                            # "2014-04-01 00:00:00", and we just opened a new file, and its first and
+                            # only record has timestamp "2014-04-01 00:00:01"; thus ts > self._ts;
+                            # So, do we want to release self._strict here?  No, because we'd re-open
+                            # the same file next time!  Therefore, we have to see ts > self._ts in a
+                            # record that is not the first one read from the file.
+                            if self._seen and ( self._ts is None or ts > self._ts ):
+                                log.debug( "%s Playback releasing strict for next open: %s > %s", self, ts, self._ts )
+                                self._strict = False
+                        self._seen	= True
+                        self._ts	= ts
+
                     if data is None and self.state != self.EXHAUSTED:
                         data		= "Parsing problem: ignoring historical record with 'null' data"
                         data_bad	= True
@@ -803,23 +823,7 @@ class loader( reader ):
                     if data:
                         # A new value; if <ts> is monotonic and increasing, append <ts>,<regs> to
                         # future and generate an event with <ts>,<data>; otherwise, log/ignore it.
-                        if self._ts is None or ts >= self._ts:
-                            if self._strict:
-                                # Carefully release self._strict.  If we opened a file, we'll set
-                                # _strict.  The last file's final timestamp will be in self._ts; say
-                                # it's "2014-04-01 00:00:00", and we just opened a new file, and its
-                                # first and only record has timestamp "2014-04-01 00:00:01"; thus ts
-                                # > self._ts; So, do we want to release self._strict here?  No,
-                                # because we'd re-open the same file next time!  Therefore, we have
-                                # to see ts > self._ts in a record that is not the first one accepted
-                                # from the file.  Only a record that advances self._ts may release
-                                # it: a corrupt record or a note with a later timestamp leaves _ts
-                                # behind, and a non-strict open would select this same file again.
-                                if self._seen and ( self._ts is None or ts > self._ts ):
-                                    log.debug( "%s Playback releasing strict for next open: %s > %s", self, ts, self._ts )
-                                    self._strict = False
-                            self._seen	= True
-                            self._ts	= ts
+                        if inorder:
                             events.append( {
                                 'timestamp':	ts,
                                 'command':	'register',
